@@ -170,7 +170,7 @@ class ParserSessionProp(object):
                  'grammar': {'kind': 'synth', 'heads': 'left' if head else 'right', 'binary': table, 'unary': unary,
                              'categories': cats, 'roots': ['T0'], 'lang': 'en'},
                  'sentences': sentences}
-        cfg = {'unary_penalty': 0.1, 'beta': 1e-5, 'use_beta': True, 'pruning_size': rng.choice([50, 50, T, 3]),
+        cfg = {'unary_penalty': 0.1, 'beta': 1e-5, 'use_beta': True, 'pruning_size': rng.choice([50, 50, 20, 3]),    # (pruning_size = T = 425 admits 27000 leaf items for 65 words: minutes)
                'nbest': 1, 'max_step': 2000000, 'max_length': 250}
         ops = [dict(cfg, op='call', batch=[0, 1, 2, 3], processes=2, max_chunk_size=20),
                dict(cfg, op='call', batch=[3, 0, 2], processes=2, max_chunk_size=1,
